@@ -27,6 +27,9 @@ type WParams struct {
 	// Deadline: the writers' contexts carry a (far away) deadline, so the synchronous Ctx entry points arm
 	// and clear the transport's write deadline around their writes
 	Deadline bool
+	// CtxKinds (optional, per writer): "" background | "cancelled" already cancelled | "cancel-later"
+	// cancelled by an extra goroutine at some point
+	CtxKinds []string
 	Bound    int
 	Tag      string
 	Cache    bool
@@ -99,11 +102,23 @@ func WriteScenario(p WParams, check func(x *vsched.Exec, o *WObs) []explore.Find
 				o.Ws = append(o.Ws, w)
 			}
 			var ths []*vsched.Thread
-			for _, w := range o.Ws {
-				w := w
+			for wi, w := range o.Ws {
+				wi, w := wi, w
 				var ctx context.Context
 				if p.Deadline {
 					ctx, _ = vcontext.WithTimeout(context.Background(), time.Hour)
+				}
+				if wi < len(p.CtxKinds) {
+					switch p.CtxKinds[wi] {
+					case "cancelled":
+						c, cancel := vcontext.WithCancel(context.Background())
+						cancel()
+						ctx = c
+					case "cancel-later":
+						c, cancel := vcontext.WithCancel(context.Background())
+						ctx = c
+						ths = append(ths, vsched.Go(w.Name+"-canceller", func() { cancel() }))
+					}
 				}
 				ths = append(ths, vsched.Go(w.Name, func() { w.Run(o.Env.Ch, ctx) }))
 			}
